@@ -20,7 +20,14 @@ fuzz_target!(|data: &[u8]| {
     if data.contains(&b'\r') {
         return;
     }
-    let Ok(c1) = Corpus::from_reader(data) else { return };
+    let parsed = Corpus::from_reader(data);
+    // "malformed lines are reported as errors": a stream that is not valid UTF-8 has a line that
+    // cannot be read, so it must not be accepted (e.g. silently truncated)
+    if std::str::from_utf8(data).is_err() {
+        assert!(parsed.is_err(), "C19: a corpus that is not valid UTF-8 was accepted");
+        return;
+    }
+    let Ok(c1) = parsed else { return };
     let (t1, w1) = dump(&c1);
     for sent in &t1 {
         assert!(sent.iter().any(|w| !w.0.is_empty()), "C19: a sentence without text was kept");
